@@ -29,7 +29,14 @@ pub fn option_sets(tier: Tier) -> Vec<Opts> {
     v.push(b(Lt::None));
     v.push(Opts { whole_line: true, ..b(Lt::Crlf) });
     v.push(Opts { fixed: true, ..b(Lt::Crlf) });
+    // the remaining builder switches
+    v.push(Opts { xmode: true, ..b(Lt::Lf) });
+    v.push(Opts { xmode: true, fixed: true, ..b(Lt::Lf) });
+    v.push(Opts { dotall: true, ..b(Lt::Lf) });
+    v.push(Opts { swap_greed: true, ..b(Lt::Lf) });
     if tier == Tier::Thorough {
+        v.push(Opts { xmode: true, fixed: true, case: Case::Insensitive, ..b(Lt::Crlf) });
+        v.push(Opts { dotall: true, ..b(Lt::Crlf) });
         v.push(Opts { case: Case::Insensitive, ..b(Lt::Crlf) });
         v.push(Opts { case: Case::Insensitive, word: true, ..b(Lt::Lf) });
         v.push(Opts { unicode: false, word: true, ..b(Lt::Lf) });
@@ -303,7 +310,7 @@ pub fn check_pair(pat: &str, o: &Opts, acc: &mut Acc) {
 }
 
 pub fn opts_json(o: &Opts) -> serde_json::Value {
-    json!({"lt": format!("{:?}", o.lt), "case": format!("{:?}", o.case), "word": o.word, "whole_line": o.whole_line, "fixed": o.fixed, "unicode": o.unicode, "ban_nul": o.ban_nul})
+    json!({"lt": format!("{:?}", o.lt), "case": format!("{:?}", o.case), "word": o.word, "whole_line": o.whole_line, "fixed": o.fixed, "unicode": o.unicode, "ban_nul": o.ban_nul, "xmode": o.xmode, "dotall": o.dotall, "swap_greed": o.swap_greed})
 }
 
 pub fn opts_from_json(v: &serde_json::Value) -> Opts {
@@ -324,6 +331,9 @@ pub fn opts_from_json(v: &serde_json::Value) -> Opts {
         fixed: v["fixed"].as_bool().unwrap_or(false),
         unicode: v["unicode"].as_bool().unwrap_or(true),
         ban_nul: v["ban_nul"].as_bool().unwrap_or(false),
+        xmode: v["xmode"].as_bool().unwrap_or(false),
+        dotall: v["dotall"].as_bool().unwrap_or(false),
+        swap_greed: v["swap_greed"].as_bool().unwrap_or(false),
     }
 }
 
